@@ -1,7 +1,7 @@
 ---------------------------- MODULE Manifest_Trace ----------------------------
 (* code -> spec for C28.  Events recorded from the real Manifest.update / parse_manifest:
    {tid,i, ev:"gen",   files:[{path:[[cp..]..],size,sums:[{chf,hex}..]}..], dist:[{name:[cp..],size,sums}..], thin,
-                       perr:"", parsed:{DIST:[{name:[[cp..]..],size,sums}..], AUX:[..], EBUILD:[..], MISC:[..]}}
+                       via:"file"|"instance", perr:"", parsed:{DIST:[{name:[[cp..]..],size,sums}..], AUX:[..], EBUILD:[..], MISC:[..]}}
         files/dist = the package directory and distfiles as the driver created them (sizes, checksums
         computed independently with hashlib), parsed = parse_manifest() of the generated file
    {tid,i, ev:"perm",  cid_a, cid_b}       Manifest bytes generated with two different listing / input orders
@@ -13,15 +13,17 @@ Sums(x) == {[chf |-> x[k].chf, hex |-> x[k].hex] : k \in DOMAIN x}
 Ents(x) == {[name |-> x[k].name, size |-> x[k].size, sums |-> Sums(x[k].sums)] : k \in DOMAIN x}
 FilesOf(e) == {[path |-> e.files[k].path, size |-> e.files[k].size, sums |-> Sums(e.files[k].sums)] : k \in DOMAIN e.files}
 DistOf(e)  == {[name |-> e.dist[k].name, size |-> e.dist[k].size, sums |-> Sums(e.dist[k].sums)] : k \in DOMAIN e.dist}
+\* via = "file": parsed = parse_manifest() of the file; via = "instance": what the accessors of the Manifest OBJECT
+\* that generated it (and had been consulted before) report.  Same expectation, clause names prefixed Instance_.
 JudgeGen(e) ==
-  LET fs == FilesOf(e)  ds == DistOf(e) IN
+  LET fs == FilesOf(e)  ds == DistOf(e)  pre == IF e.via = "instance" THEN "Instance_" ELSE "" IN
   IF ~Specified(fs, ds, e.thin) THEN {}
-  ELSE IF e.perr # "" THEN {"Parses"}
+  ELSE IF e.perr # "" THEN {pre \o "Parses"}
   ELSE LET x == Expected(fs, ds, e.thin) IN
-       (IF Len(e.parsed.DIST) = Cardinality(Ents(e.parsed.DIST)) /\ Ents(e.parsed.DIST) = x.DIST THEN {} ELSE {"ParseBack_DIST"})
-       \cup (IF Ents(e.parsed.AUX) = x.AUX THEN {} ELSE {"ParseBack_AUX"})
-       \cup (IF Ents(e.parsed.EBUILD) = x.EBUILD THEN {} ELSE {"ParseBack_EBUILD"})
-       \cup (IF Ents(e.parsed.MISC) = x.MISC THEN {} ELSE {"ParseBack_MISC"})
+       (IF Len(e.parsed.DIST) = Cardinality(Ents(e.parsed.DIST)) /\ Ents(e.parsed.DIST) = x.DIST THEN {} ELSE {pre \o "ParseBack_DIST"})
+       \cup (IF Ents(e.parsed.AUX) = x.AUX THEN {} ELSE {pre \o "ParseBack_AUX"})
+       \cup (IF Ents(e.parsed.EBUILD) = x.EBUILD THEN {} ELSE {pre \o "ParseBack_EBUILD"})
+       \cup (IF Ents(e.parsed.MISC) = x.MISC THEN {} ELSE {pre \o "ParseBack_MISC"})
 Judge(e) == CASE e.ev = "gen"   -> JudgeGen(e)
               [] e.ev = "perm"  -> (IF e.cid_a = e.cid_b THEN {} ELSE {"OrderIndependent"})
               [] e.ev = "regen" -> (IF e.n_mut = 0 /\ e.cid_before = e.cid_after THEN {} ELSE {"IdempotentNoWrite"})
